@@ -267,9 +267,9 @@ func phaseGenerate(root, tier string, seed uint64) {
 	must(runCompiler(&inspector.Config{Target: inspector.TargetFile, File: declFile, Destination: filepath.Join(root, "xml", "decl"),
 		Import: "gen/decl", XML: "xml/decl"}, true))
 	// testobj regenerated by the current generator (directory target), next to the committed output
-	must(runCompiler(&inspector.Config{Target: inspector.TargetDirectory, Directory: "/repo/testobj", Destination: filepath.Join(root, "fresh", "testobj_ins"),
+	must(runCompiler(&inspector.Config{Target: inspector.TargetDirectory, Directory: repoDir+"/testobj", Destination: filepath.Join(root, "fresh", "testobj_ins"),
 		Import: "github.com/koykov/inspector/testobj", Force: true}, false))
-	must(runCompiler(&inspector.Config{Target: inspector.TargetDirectory, Directory: "/repo/testobj", Destination: filepath.Join(root, "xml", "fresh"),
+	must(runCompiler(&inspector.Config{Target: inspector.TargetDirectory, Directory: repoDir+"/testobj", Destination: filepath.Join(root, "xml", "fresh"),
 		Import: "github.com/koykov/inspector/testobj", XML: "xml/fresh"}, true))
 }
 
@@ -290,7 +290,7 @@ func phaseMain(root string) {
 	sb.WriteString("\t\"github.com/koykov/inspector/testobj\"\n\t\"github.com/koykov/inspector/testobj_ins\"\n)\n\nfunc main() {\n")
 	for _, n := range shippedTypes {
 		x := strings.ToLower(n) + ".xml"
-		fmt.Fprintf(&sb, "\tcorr.Register(\"shipped\", %q, testobj.%s{}, testobj_ins.%sInspector{}, %q)\n", n, n, n, "/repo/testdata/"+x)
+		fmt.Fprintf(&sb, "\tcorr.Register(\"shipped\", %q, testobj.%s{}, testobj_ins.%sInspector{}, %q)\n", n, n, n, repoDir+"/testdata/"+x)
 		if _, err := os.Stat(filepath.Join(root, "fresh", "testobj_ins", strings.ToLower(n)+"_ins.go")); err == nil {
 			fmt.Fprintf(&sb, "\tcorr.Register(\"fresh\", %q, testobj.%s{}, fresh.%sInspector{}, %q)\n", n, n, n, filepath.Join(root, "xml", "fresh", x))
 		}
@@ -334,23 +334,23 @@ func phaseTargets(root, run string) {
 	gopath := filepath.Join(base, "gopath")
 	must(os.MkdirAll(gopath, 0755))
 	must(os.Setenv("GOPATH", gopath))
-	must(os.Chdir("/repo"))
+	must(os.Chdir(repoDir))
 	if err := runCompiler(&inspector.Config{Target: inspector.TargetPackage, Package: imp, Destination: "pkgout"}, false); err != nil {
 		errs["package"] = err.Error()
 	}
 	// WriteXML of the package target writes relative to the working directory, which must stay inside a
 	// module that resolves the package: dump into a scratch path below the GOPATH through a relative path
-	rel, rerr := filepath.Rel("/repo", filepath.Join(gopath, "src", "pkgxml"))
+	rel, rerr := filepath.Rel(repoDir, filepath.Join(gopath, "src", "pkgxml"))
 	if rerr != nil {
 		errs["package-xml"] = rerr.Error()
 	} else if err := runCompiler(&inspector.Config{Target: inspector.TargetPackage, Package: imp, Destination: "pkgxml", XML: rel}, true); err != nil {
 		errs["package-xml"] = err.Error()
 	}
 	must(os.Chdir(base))
-	if err := compileAndXML(&inspector.Config{Target: inspector.TargetDirectory, Directory: "/repo/testobj", Destination: filepath.Join(base, "dir"), Import: imp}, "dirxml"); err != nil {
+	if err := compileAndXML(&inspector.Config{Target: inspector.TargetDirectory, Directory: repoDir+"/testobj", Destination: filepath.Join(base, "dir"), Import: imp}, "dirxml"); err != nil {
 		errs["directory"] = err.Error()
 	}
-	for i, f := range []string{"/repo/testobj/testobj.go", "/repo/testobj/testobj1.go"} {
+	for i, f := range []string{repoDir+"/testobj/testobj.go", repoDir+"/testobj/testobj1.go"} {
 		if err := runCompiler(&inspector.Config{Target: inspector.TargetFile, File: f, Destination: filepath.Join(base, "file"), Import: imp, NoClean: i > 0}, false); err != nil {
 			errs["file"] = err.Error()
 		}
@@ -379,14 +379,14 @@ func phaseTargets(root, run string) {
 	bl := filepath.Join(base, "blacklist")
 	must(os.MkdirAll(bl, 0755))
 	must(os.WriteFile(filepath.Join(bl, "marker.txt"), []byte("keep"), 0644))
-	if err := runCompiler(&inspector.Config{Target: inspector.TargetDirectory, Directory: "/repo/testobj", Destination: bl, Import: imp, NoClean: true,
+	if err := runCompiler(&inspector.Config{Target: inspector.TargetDirectory, Directory: repoDir+"/testobj", Destination: bl, Import: imp, NoClean: true,
 		BlackList: map[string]struct{}{"TestObject1": {}, "TestFlag": {}}}, false); err != nil {
 		errs["blacklist"] = err.Error()
 	}
 	cl := filepath.Join(base, "clean")
 	must(os.MkdirAll(cl, 0755))
 	must(os.WriteFile(filepath.Join(cl, "marker.txt"), []byte("remove"), 0644))
-	if err := runCompiler(&inspector.Config{Target: inspector.TargetDirectory, Directory: "/repo/testobj", Destination: cl, Import: imp}, false); err != nil {
+	if err := runCompiler(&inspector.Config{Target: inspector.TargetDirectory, Directory: repoDir+"/testobj", Destination: cl, Import: imp}, false); err != nil {
 		errs["clean"] = err.Error()
 	}
 	// an un-forced run over the whole grammar slice: does the generator itself report an error?
@@ -402,7 +402,7 @@ func phaseTargets(root, run string) {
 // phaseFacts extracts from the generated inspector files (committed, regenerated testobj, grammar slice)
 // the facts the Lean side re-checks on every run: their distinct import sets.
 func phaseFacts(root string) {
-	dirs := []string{"/repo/testobj_ins", filepath.Join(root, "fresh", "testobj_ins"), filepath.Join(root, "decl_ins")}
+	dirs := []string{repoDir+"/testobj_ins", filepath.Join(root, "fresh", "testobj_ins"), filepath.Join(root, "decl_ins")}
 	sets := map[string]bool{}
 	n := 0
 	fset := token.NewFileSet()
@@ -451,6 +451,14 @@ func phaseFacts(root string) {
 	must(os.MkdirAll(filepath.Join(root, "extracted"), 0755))
 	must(os.WriteFile(filepath.Join(root, "extracted", "Imports.lean"), []byte(sb.String()), 0644))
 }
+
+// repoDir: the tree under verification (VERIF_REPO overrides /repo, as in scripts/vlib.py).
+var repoDir = func() string {
+	if d := os.Getenv("VERIF_REPO"); d != "" {
+		return d
+	}
+	return "/repo"
+}()
 
 func main() {
 	log.SetOutput(io.Discard) // the compiler logs gofmt failures under Force
